@@ -114,6 +114,24 @@ func (p *Path) ResolveLocalLoad(v ssa.Value) ssa.Value {
 				return v // address stored somewhere: escapes
 			}
 		case *ssa.UnOp, *ssa.DebugRef:
+		case *ssa.MakeClosure:
+			// captured by a closure that only reads it
+			fn, _ := x.Fn.(*ssa.Function)
+			if fn == nil {
+				return v
+			}
+			for i, b := range x.Bindings {
+				if b != ssa.Value(a) || i >= len(fn.FreeVars) {
+					continue
+				}
+				for _, r2 := range *fn.FreeVars[i].Referrers() {
+					if u, ok := r2.(*ssa.UnOp); !ok || u.Op != token.MUL {
+						if _, isDbg := r2.(*ssa.DebugRef); !isDbg {
+							return v
+						}
+					}
+				}
+			}
 		default:
 			return v
 		}
